@@ -176,7 +176,12 @@ def run_state(desc):
             instr.uninstrument([s["A"], s["B"]])
         if bool(r) != expect:
             kind = "missed_overlap" if expect else "phantom_contact"
-            sym = ":flat_plane_contains_other_centre" if (name == "mpr_intersection" and gs.flat_plane_contains_other_centre(s["rA"], s["rB"], L)) else ""
+            sym = ""
+            if name == "mpr_intersection":
+                if gs.flat_plane_contains_other_centre(s["rA"], s["rB"], L):
+                    sym = ":flat_plane_contains_other_centre"
+                elif kind == "phantom_contact" and gs.mpr_expand_portal_exact_tie(s["A"], s["B"]):
+                    sym = ":expand_portal_exact_tie"
             viol.append(_viol(name, kind, cls + ":" + scale_class(s) + sym, {"answer": bool(r), "truth": _tr(tr), "delta": delta}))
         hist.setdefault("test", {})[name] = 1
     nt = [gs.nontrivial_key(desc)] if gs.is_degenerate(desc) else []
